@@ -61,3 +61,9 @@ package fetcher
 //@ func (*VersionedFetcher).seekTo -> (err)
 //@   assert before call#1 seekNext: arg1 == c
 //@   tags C03
+//@
+//@ // ===== C10: time-travel reads (and subscriptions, which use them) go through the same guard: the inner
+//@ // fetcher is initialised with the requester's identity, the access-control handle and the collection
+//@ func (*VersionedFetcher).Init -> (err)
+//@   assert before call#2 Init: arg2 == identity && arg4 == documentACP && arg6 == col && arg3 == res(NewTxnFrom, 1, 0)
+//@   tags C10 C03
